@@ -80,6 +80,16 @@ ALL_ENTRIES = sorted([c, r, a] for c in CLIENTS for r in ('s1', 's2', SYS, 'j1',
                      for a in ACTIONS)
 
 
+def toggled(pol, entry):
+    return sorted([e for e in pol if e != entry] if entry in pol else pol + [entry])
+
+
+def entry_first(pol, entry):
+    """order in which a half-written file holds the revision: the entry in question (if granted) in the part that
+    can still be parsed"""
+    return [e for e in pol if e == entry] + [e for e in pol if e != entry]
+
+
 def sharpen(b, rng):
     """Replaces the sampled policy of a behaviour by the most discriminating one of the same model family
     (MC_Authz!PolicyChoices): for an unauthorised first call everything EXCEPT the entry the call needs (catches a
@@ -96,9 +106,16 @@ def sharpen(b, rng):
     new = sorted(new)
     b['cfg']['policy'] = new
     cur = list(new)
+    torn = False
     for st in b['steps']:
-        if st['a'] == 'EditPolicy':
-            cur = sorted([e for e in cur if e != entry] if entry in cur else cur + [entry])
+        if st['a'] == 'BreakFile' and st.get('kind') == 'torn':
+            cur = toggled(cur, entry)
+            st['policy'] = entry_first(cur, entry)
+            torn = True
+        elif st['a'] == 'EditPolicy':
+            if not torn:      # (MC_Authz!MCEdit: the corrected file holds the revision whose write stopped half-way)
+                cur = toggled(cur, entry)
+            torn = False
             st['policy'] = cur
     return b
 
@@ -111,15 +128,21 @@ def with_tail(b, rng=None):
     if c['s'] == SYS and c['m'] not in HARMLESS_ON_SYS:
         return b      # the second call would be an authorised write to the cursors stream (MC_Authz!MCCall guard)
     entry = [c['c'], resource_of(c), action_of(c['m'])]
-    cur = list(b['cfg']['policy'])
-    cur = sorted([e for e in cur if e != entry] if entry in cur else cur + [entry])
+    cur = toggled(list(b['cfg']['policy']), entry)
     mid = []
     if rng is not None and rng.random() < 0.5:
-        # MCBreak / MCReloadFail: the file disappears and a reload fails before the corrected file is written
-        mid = [{'a': 'BreakFile'}, {'a': 'Reload'}]
+        # MCBreak / MCReloadFail: the file disappears, or the write of the new revision stops half-way, and a reload
+        # fails before the corrected file is written
+        if rng.random() < 0.5:
+            mid = [{'a': 'BreakFile', 'kind': 'removed'}, {'a': 'Reload'}]
+        else:
+            mid = [{'a': 'BreakFile', 'kind': 'torn', 'policy': entry_first(cur, entry)}, {'a': 'Reload'}]
     how = rng.choice(['inplace', 'rename']) if rng is not None else 'inplace'   # MCEdit: written in place / renamed over
-    b['steps'] = [b['steps'][0]] + mid + [{'a': 'EditPolicy', 'policy': cur, 'how': how}, {'a': 'Reload'},
-                                          {'a': 'Call', 'call': dict(c)}]
+    cancel = []
+    if c['m'] in ('PublishAsync', 'Subscribe') and rng is not None and rng.random() < 0.5:
+        cancel = [{'a': 'Cancel', 'call': dict(c)}]      # MCCancel: the streaming call is cancelled, then made again
+    b['steps'] = [b['steps'][0]] + mid + [{'a': 'EditPolicy', 'policy': cur, 'how': how}, {'a': 'Reload'}] + cancel + [
+        {'a': 'Call', 'call': dict(c)}]
     return b
 
 
@@ -192,7 +215,14 @@ def to_behaviour(bid, sim):
             steps.append({'a': 'EditPolicy', 'policy': entries(sv(s['body'], 'policyFile')),
                           'how': s['last'].get('how', 'inplace')})
         elif a == 'BreakFile':
-            steps.append({'a': 'BreakFile'})
+            step = {'a': 'BreakFile', 'kind': s['last'].get('kind', 'removed')}
+            if step['kind'] == 'torn':
+                c0 = s['last']['call']
+                step['policy'] = entry_first(entries(sv(s['body'], 'policyFile')),
+                                             [c0['c'], resource_of(c0), action_of(c0['m'])])
+            steps.append(step)
+        elif a == 'Cancel':
+            steps.append({'a': 'Cancel', 'call': s['last']['call']})
         else:
             steps.append({'a': 'Reload'})
     return {'id': bid, 'cfg': cfg, 'steps': steps}
